@@ -138,6 +138,13 @@ CLAIMED = {
             "All values 0..2^32-1; exactly one RemoteSettingsChanged + one ACK per received "
             "frame, in order; k-th ACK applies and reports exactly the k-th frame; a raising "
             "update_settings leaves nothing pending.", "7/C11"),
+    'C25': ("symbolic execution of initiate_upgrade_connection on both sides with the seven client "
+            "settings as solver variables (HTTP2-Settings token modelled as the identity on the "
+            "settings mapping, validated against the real serialiser/base64), then solver-chosen "
+            "continuations on stream 1; longer continuations through the 'upgrade' catalogue slice",
+            "Server view of the client settings and every derived enforcement point equal the "
+            "client's local settings for all values; stream 1 half-closed on both sides; next ids "
+            "3 / 2; GOAWAY last-stream-id; late frames on stream 1.", "7/C25"),
 }
 
 NOT_YET = {}
